@@ -49,6 +49,7 @@ def run(ctx):
         rule_take(ctx, M)
         rule_collect(ctx, M)
         c13.rule_group_container(ctx, M, "C15.COLLECT", ("VecConsumer", "ResultVecConsumer"))
+        rule_prealloc(ctx, M, "C15.COLLECT")
         with ctx.renamed({"C14.RESVEC": "C15.COLLECT"}):
             c14.rule_resvec(ctx, M)
         rule_map(ctx, M)
@@ -400,6 +401,38 @@ def rule_map(ctx, M):
 
 
 ADAPTERS = {"enumerate::Enumerate": "EnumerateConsumer", "limit::Limit": "LimitConsumer", "map::Map": "MapConsumer", "take::Take": "TakeConsumer"}
+
+
+def rule_prealloc(ctx, M, rule):
+    """collect pre-allocates `Vec::with_capacity(size_hint().1.unwrap_or_default())`: an upper bound is trusted as an
+    allocation size.  That is only harmless while no adapter invents an upper bound of its own (`take(usize::MAX)` over a
+    source of unknown length would ask for usize::MAX elements and panic with a capacity overflow before a single item is
+    processed): as long as the upper bound is used this way, every adapter's size_hint is its inner stream's."""
+    trusts_upper = False
+    for x in M.F.bodies:
+        if "from_concurrent_stream::{closure#0}" in x.def_ or x.def_.endswith("from_concurrent_stream"):
+            xi = M.info(x)
+            for s in xi.sites:
+                if s.key == ("Vec", "with_capacity") and s.args:
+                    for t in subterms(s.arg(0)):
+                        if t[0] == "field" and t[2] == 1 and t[1][0] == "call" and t[1][1][1] == "size_hint":
+                            trusts_upper = True
+    if not trusts_upper:
+        ctx.ok(rule, "<crate>", "collect does not allocate by the stream's upper size bound")
+        return
+    for adt, e in sorted(M.costreams.items()):
+        simple = adt.rsplit("::", 1)[-1]
+        if simple not in ("Take", "Limit", "Map", "Enumerate"):
+            continue
+        b = M.impl_fn(e["impl"], "size_hint")
+        if b is None:
+            continue
+        bi = M.info(b)
+        rets = flow.returned_values(bi)
+        ok = len(rets) == 1 and rets[0][3][0] == "call" and rets[0][3][1][1] == "size_hint" and rets[0][3][2] and \
+            rets[0][3][2][0] == ("field", ("param", 1), "inner")
+        ctx.check(ok, rule, b.def_, "%s::size_hint is its inner stream's hint (collect allocates by the upper bound it reports)" % simple, site=b.span,
+                  sample={"ret": short(rets[0][3]) if rets else None})
 
 
 def rule_adapter_ctors(ctx, M, rule, only=None):
